@@ -6,6 +6,7 @@
 //   vec_drv geom    <quick|thorough>   G-lines: generated meshes with small-integer positions
 //   vec_drv special <quick|thorough>   T-lines: float/double special+sampled values, compared HERE
 //                                      against the same formula in plain scalar C++ (testing)
+//   vec_drv witness                    W-lines: two fixed, seed-independent witnesses (known findings)
 //   vec_drv eval                       reads "E <st> <N> <op> <operands>" lines from stdin and
 //                                      prints them completed with "= <result>" (replay)
 //
@@ -698,6 +699,40 @@ template <class VecT> static void gen_meshes(bool thorough, uint64_t seed, const
     }
 }
 
+// ------------------------------------------------------------------ fixed witnesses (seed independent)
+// Two statements of C19 that the code does not satisfy (findings/C19.md F-C19-2, F-C19-3); evaluated on
+// the real code on every run and judged by the Lean evaluator against the DEFINING formula:
+//   W l1 <st> <N> <operands> = <l1_norm()>                    vs. the Manhattan norm  sum |x_i|
+//   W normal_nonconvex <st> <k> <3k positions> = <normal(hf)> <normal(opposite hf)>   on a planar,
+//     non-convex face whose corner used by normal(hf) is convex and whose corner used by
+//     normal(opposite hf) is the reflex one: "the normals of the two sides are opposite"
+template <class VecT> static void witness_nonconvex(const char* st, const std::vector<IP>& poly) {
+    typedef GeometryKernel<VecT, TopologyKernel> PolyM;
+    PolyM m; std::vector<VertexHandle> vs;
+    for (auto& p : poly) vs.push_back(addv(m, p.x, p.y, p.z));
+    FaceHandle fh = m.add_face(vs);
+    HalfFaceHandle h0 = m.halfface_handle(fh, 0), h1 = m.halfface_handle(fh, 1);
+    std::string pcs; size_t k = 0;
+    for (auto hfv = m.hfv_iter(h0); hfv.valid(); ++hfv, ++k) pcs += " " + pos3(m.vertex(*hfv));
+    printf("W normal_nonconvex %s %zu%s = %s %s\n", st, k, pcs.c_str(), pos3(m.normal(h0)).c_str(), pos3(m.normal(h1)).c_str());
+}
+static void witnesses() {
+    printf("W l1 i 2 1 -2 = %s\n", canon(Geometry::Vec2i(1, -2).l1_norm()).c_str());
+    printf("W l1 d 3 1 -1 0 = %s\n", canon(Geometry::Vec3d(1.0, -1.0, 0.0).l1_norm()).c_str());
+    printf("W l1 f 4 -1 -2 -2 0 = %s\n", canon(Geometry::Vec4f(-1.f, -2.f, -2.f, 0.f).l1_norm()).c_str());
+    printf("W l1 i 3 1 2 3 = %s\n", canon(Geometry::Vec3i(1, 2, 3).l1_norm()).c_str());   // control: non-negative
+    // arrow-shaped quad in z = 0: corner at (4,0,0) convex, corner at (2,1,0) reflex
+    std::vector<IP> quad = {{0, 0, 0}, {4, 0, 0}, {4, 4, 0}, {2, 1, 0}};
+    // L-shaped hexagon in z = 0 (reflex corner at (3,3,0)), once as a control and once rotated so that the
+    // reflex corner is the last vertex, i.e. the corner normal(opposite hf) uses
+    std::vector<IP> lshape = {{0, 0, 0}, {6, 0, 0}, {6, 6, 0}, {3, 6, 0}, {3, 3, 0}, {0, 3, 0}};
+    std::vector<IP> lrot = {{0, 3, 0}, {0, 0, 0}, {6, 0, 0}, {6, 6, 0}, {3, 6, 0}, {3, 3, 0}};   // last vertex reflex
+    witness_nonconvex<Geometry::Vec3d>("d", quad);
+    witness_nonconvex<Geometry::Vec3f>("f", quad);
+    witness_nonconvex<Geometry::Vec3d>("d", lrot);
+    witness_nonconvex<Geometry::Vec3d>("d", lshape);   // control: both corners used are convex -> opposite
+}
+
 int main(int argc, char** argv) {
     std::string mode = argc > 1 ? argv[1] : "lattice";
     bool thorough = argc > 2 && std::string(argv[2]) == "thorough";
@@ -715,11 +750,13 @@ int main(int argc, char** argv) {
         special_for_type<float>(thorough, seed);
         special_for_type<double>(thorough, seed);
         for (auto& kv : g_tstat) printf("T %s evals=%lld mismatches=%lld\n", kv.first.c_str(), kv.second.evals, kv.second.mism);
+    } else if (mode == "witness") {
+        witnesses();
     } else if (mode == "geom") {
         gen_meshes<Geometry::Vec3d>(thorough, seed, "d");
         gen_meshes<Geometry::Vec3f>(thorough, seed, "f");
     } else {
-        fprintf(stderr, "usage: vec_drv lattice|geom|special|eval [quick|thorough]\n");
+        fprintf(stderr, "usage: vec_drv lattice|geom|special|witness|eval [quick|thorough]\n");
         return 2;
     }
     fflush(stdout);
